@@ -6,6 +6,7 @@ import (
 	"flag"
 	"fmt"
 	"os"
+	"runtime/pprof"
 	"sort"
 	"strings"
 	"sync"
@@ -94,8 +95,15 @@ func cmdRun(args []string) int {
 	smtlog := fs.String("smtlog", "", "write solver dialogue of worker 0 here (single path mode)")
 	abstract := fs.Bool("abstract", true, "tier-1 float abstraction")
 	solver := fs.String("solver", "z3-new", "primary incremental solver: z3-new | cvc5")
+	subtree := fs.String("subtree", "", "explore only under this decision prefix")
+	cpuprof := fs.String("cpuprofile", "", "write CPU profile")
 	slow := fs.String("slowlog", "", "directory for scripts of slow queries")
 	fs.Parse(args)
+	if *cpuprof != "" {
+		f, _ := os.Create(*cpuprof)
+		pprof.StartCPUProfile(f)
+		defer pprof.StopCPUProfile()
+	}
 	smt.SlowLog = *slow
 	smt.SolverPath = *solver
 	smt.Abstract = *abstract
@@ -119,6 +127,13 @@ func cmdRun(args []string) int {
 	l.world.Trace = *trace
 	opts := defaultOpts(*tier)
 	opts.Explore = *explore
+	if *subtree != "" {
+		for _, s := range strings.Split(*subtree, ",") {
+			var v int
+			fmt.Sscan(s, &v)
+			opts.Root = append(opts.Root, v)
+		}
+	}
 	if *prefix != "" || *trace {
 		var pf []int
 		for _, s := range strings.Split(*prefix, ",") {
